@@ -263,6 +263,168 @@ class OpListSpec(Spec):
         return [C("rejected-call-changes-nothing", z3.And(*[st.heap[k] == old.heap[k] for k in names]) if names else z3.BoolVal(True))]
 
 
+# =============================================================================== block lists of regions
+POSB = z3.Array("pos_block", I, z3.RealSort())  # ghost: dense position of an attached block inside its region
+BLOCK_LIST_FIELDS = ["parent", "_next_block", "_prev_block", "_first_block", "_last_block"]
+
+
+def is_region(x):
+    return KIND[x] == K_REGION
+
+
+class HB:
+    """Block-list field accessors over a symbolic state."""
+
+    def __init__(self, st):
+        self.st = st
+
+    def __getattr__(self, name):
+        real = {"parent": "parent", "next": "_next_block", "prev": "_prev_block", "first": "_first_block", "last": "_last_block"}[name]
+        arr = self.st.fld(real)
+        return lambda x: z3.Select(arr, x)
+
+
+def inv_blocks(st, pos):
+    """Representation invariant of the per-region block lists, for ALL blocks and regions (the statement's clauses for blocks)."""
+    h = HB(st)
+    b, r = z3.Ints("ib!b ib!r")
+    P, N, Pv, F, L = h.parent, h.next, h.prev, h.first, h.last
+    return [
+        A("null-is-untyped", KIND[0] == 0),
+        A("block-link-types", forall([b], z3.Implies(is_block(b), z3.And(
+            z3.Or(P(b) == 0, is_region(P(b))), z3.Or(N(b) == 0, is_block(N(b))), z3.Or(Pv(b) == 0, is_block(Pv(b))))))),
+        A("region-end-types", forall([r], z3.Implies(is_region(r), z3.And(z3.Or(F(r) == 0, is_block(F(r))), z3.Or(L(r) == 0, is_block(L(r))))))),
+        A("detached-block-has-no-siblings", forall([b], z3.Implies(z3.And(is_block(b), P(b) == 0), z3.And(N(b) == 0, Pv(b) == 0)))),
+        A("next-link-symmetric", forall([b], z3.Implies(z3.And(is_block(b), N(b) != 0), z3.And(Pv(N(b)) == b, P(N(b)) == P(b))))),
+        A("prev-link-symmetric", forall([b], z3.Implies(z3.And(is_block(b), Pv(b) != 0), z3.And(N(Pv(b)) == b, P(Pv(b)) == P(b))))),
+        A("no-prev-means-first", forall([b], z3.Implies(z3.And(is_block(b), P(b) != 0, Pv(b) == 0), F(P(b)) == b))),
+        A("no-next-means-last", forall([b], z3.Implies(z3.And(is_block(b), P(b) != 0, N(b) == 0), L(P(b)) == b))),
+        A("first-belongs", forall([r], z3.Implies(z3.And(is_region(r), F(r) != 0), z3.And(P(F(r)) == r, Pv(F(r)) == 0)))),
+        A("last-belongs", forall([r], z3.Implies(z3.And(is_region(r), L(r) != 0), z3.And(P(L(r)) == r, N(L(r)) == 0)))),
+        A("empty-iff-both-ends-none", forall([r], z3.Implies(is_region(r), (F(r) == 0) == (L(r) == 0)))),
+        A("pos-increases-along-next", forall([b], z3.Implies(z3.And(is_block(b), N(b) != 0), pos[N(b)] > pos[b]))),
+    ]
+
+
+class BlockListSpec(Spec):
+    """
+    Region.add_block / insert_block_before / insert_block_after / detach_block for ONE block (the `Block` form of the argument; the
+    iterator loops are then unrolled completely - every path leaves them within two iterations - so no invariant is needed).
+    The Iterable form is covered by the bounded explorer only.
+    """
+
+    prop, file = PROP, CORE
+    modifies = BLOCK_LIST_FIELDS
+    ghost_modifies = ["pos_block"]
+    unroll = {0: 2}
+
+    def __init__(self, method):
+        self.qualname = f"Region.{method}"
+        self.method = method
+        self.inline = {"self._attach_block": Inline(CORE, "Region._attach_block")}
+        self.calls = {"block.is_ancestor": IS_ANCESTOR}
+        if method == "insert_block_after":
+            self.calls = {"self.add_block": BlockListSpec("add_block"), "self.insert_block_before": BlockListSpec("insert_block_before")}
+            self.inline = {}
+
+    @property
+    def globals(self):
+        def isinst(ex, st, v, cls):
+            from pyvc.values import VGlobal
+
+            if isinstance(cls, VGlobal) and cls.text == "Block":
+                return True  # the single-block form
+            if isinstance(cls, VGlobal) and cls.text == "int":
+                return False
+            return None
+
+        return {"__isinstance__": isinst}
+
+    def setup(self, st, inst):
+        st.ghost["pos_block"] = POSB
+        a = {"self": VRef(st.declare_input("self", z3.Int("self")), "Region"), "block": VRef(st.declare_input("block", z3.Int("block")), "Block")}
+        if self.method in ("insert_block_before", "insert_block_after"):
+            a["target"] = VRef(st.declare_input("target", z3.Int("target")), "Block")
+        return a
+
+    def pre(self, st, a):
+        cs = [is_region(a["self"].z), is_block(a["block"].z)] + ([is_block(a["target"].z)] if "target" in a else [])
+        return inv_blocks(st, st.ghost["pos_block"]) + [A("typed-arguments", z3.And(*cs))]
+
+    # ---- callee view
+    def exc_cases(self, st, a):
+        h = HB(st)
+        me, blk = a["self"].z, a["block"].z
+        bad_new = z3.Or(h.parent(blk) != 0, IsAncestor.ANC(blk, me))
+        if self.method == "add_block":
+            return [("ValueError", bad_new)]
+        if self.method == "insert_block_before":
+            return [("ValueError", z3.Or(h.parent(a["target"].z) != me, bad_new))]
+        if self.method == "detach_block":
+            return [("ValueError", h.parent(blk) != me)]
+        return []
+
+    def ghost_update(self, old, st, a, res):
+        pos = old.ghost["pos_block"]
+        ho = HB(old)
+        me, blk = a["self"].z, a["block"].z
+        if self.method == "add_block":
+            last = ho.last(me)
+            return {"pos_block": z3.Store(pos, blk, z3.If(last == 0, z3.RealVal(0), pos[last] + 1))}
+        if self.method == "insert_block_before":
+            t = a["target"].z
+            pv = ho.prev(t)
+            return {"pos_block": z3.Store(pos, blk, z3.If(pv == 0, pos[t] - 1, (pos[pv] + pos[t]) / 2))}
+        if self.method == "insert_block_after":
+            t = a["target"].z
+            nx = ho.next(t)
+            last = ho.last(me)
+            return {"pos_block": z3.Store(pos, blk, z3.If(nx == 0, z3.If(last == 0, z3.RealVal(0), pos[last] + 1), (pos[nx] + pos[t]) / 2))}
+        return {}
+
+    def post(self, old, st, a, res):
+        ho, hn = HB(old), HB(st)
+        pos_o, pos_n = old.ghost["pos_block"], st.ghost["pos_block"]
+        me, blk = a["self"].z, a["block"].z
+        aux = ("null-is-untyped", "pos-increases-along-next", "detached-block-has-no-siblings", "block-link-types", "region-end-types")
+        out = [Clause(c.name, c.z, "aux" if c.name in aux else "property") for c in inv_blocks(st, pos_n)]
+        b, c2 = z3.Ints("pb!b pb!c")
+        m = self.method
+        frame = A("nothing-but-the-block-list-links-changes",
+                  z3.And(*[st.heap[k] == old.heap[k] for k in st.heap if k in old.heap and k not in BLOCK_LIST_FIELDS and k != "alloc"]))
+        if m in ("add_block", "insert_block_before", "insert_block_after"):
+            out += [C("new-block-is-in-this-region", hn.parent(blk) == me),
+                    C("membership-of-other-blocks-unchanged", forall([b], z3.Implies(z3.And(is_block(b), b != blk), hn.parent(b) == ho.parent(b)))),
+                    C("parents-of-operations-and-regions-unchanged", forall([b], z3.Implies(z3.Not(is_block(b)), hn.parent(b) == ho.parent(b)))),
+                    C("relative-order-of-other-blocks-unchanged", forall([b, c2], z3.Implies(
+                        z3.And(is_block(b), is_block(c2), b != blk, c2 != blk, ho.parent(b) == ho.parent(c2), ho.parent(b) != 0),
+                        (pos_n[b] < pos_n[c2]) == (pos_o[b] < pos_o[c2]))))]
+            if m == "add_block":
+                out.append(C("placed-last", z3.And(hn.last(me) == blk, hn.prev(blk) == ho.last(me))))
+            elif m == "insert_block_before":
+                t = a["target"].z
+                out.append(C("placed-immediately-before", z3.And(hn.next(blk) == t, hn.prev(t) == blk, hn.prev(blk) == ho.prev(t))))
+            else:
+                t = a["target"].z
+                out.append(C("placed-immediately-after-a-target-of-this-region", z3.Implies(ho.parent(t) == me, z3.And(hn.prev(blk) == t, hn.next(t) == blk, hn.next(blk) == ho.next(t)))))
+            out.append(frame)
+        else:
+            out += [C("returns-the-block", res.z == blk),
+                    C("block-is-detached", z3.And(hn.parent(blk) == 0, hn.next(blk) == 0, hn.prev(blk) == 0)),
+                    C("membership-of-other-blocks-unchanged", forall([b], z3.Implies(z3.And(is_block(b), b != blk), hn.parent(b) == ho.parent(b)))),
+                    C("parents-of-operations-and-regions-unchanged", forall([b], z3.Implies(z3.Not(is_block(b)), hn.parent(b) == ho.parent(b)))),
+                    C("neighbours-are-joined", z3.And(z3.Implies(ho.prev(blk) != 0, hn.next(ho.prev(blk)) == ho.next(blk)),
+                                                      z3.Implies(ho.next(blk) != 0, hn.prev(ho.next(blk)) == ho.prev(blk)))),
+                    frame]
+        return out
+
+    def post_exc(self, old, st, a, exc):
+        if exc != "ValueError":
+            return None
+        names = [k for k in st.heap if k in old.heap and k != "alloc"]
+        return [C("rejected-call-changes-nothing", z3.And(*[st.heap[k] == old.heap[k] for k in names]) if names else z3.BoolVal(True))]
+
+
 # =============================================================================== use lists
 USED = z3.Array("used_by_value", I, I)  # ghost: the value/block whose use list contains the Use (0: in no list)
 UPOS = z3.Array("pos_use", I, z3.RealSort())  # ghost: dense position inside the use list
@@ -457,6 +619,8 @@ def make_specs(tier):
     for m in ("insert_op_before", "insert_op_after", "add_op", "detach_op"):
         specs.append(OpListSpec(m))
     specs += [ADD_USE, REMOVE_USE, SetItemSpec("operand"), SetItemSpec("successor")]
+    for m in ("add_block", "insert_block_before", "insert_block_after", "detach_block"):
+        specs.append(BlockListSpec(m))
     return specs
 
 
@@ -471,13 +635,15 @@ UNDER_CONTRACT = {
     ("xdsl/ir/core.py", "Block.insert_op_before"), ("xdsl/ir/core.py", "Operation._insert_next_op"),
     ("xdsl/ir/core.py", "Operation._insert_prev_op"), ("xdsl/ir/core.py", "IRWithUses.add_use"), ("xdsl/ir/core.py", "IRWithUses.remove_use"),
     ("xdsl/ir/core.py", "OpOperands.__setitem__"), ("xdsl/ir/core.py", "OpSuccessors.__setitem__"),
+    # single-block form under contract; the Iterable form of add_block / insert_block_before stays with the bounded explorer
+    ("xdsl/ir/core.py", "Region.add_block"), ("xdsl/ir/core.py", "Region.detach_block"), ("xdsl/ir/core.py", "Region.insert_block_before"),
+    ("xdsl/ir/core.py", "Region._attach_block"),
 }
 BOUNDED_ONLY = {  # writers covered by the bounded explorer (contracts.C01_native), not by a discharged contract
     ("xdsl/ir/core.py", "Block.__init__"), ("xdsl/ir/core.py", "Block.drop_all_references"), ("xdsl/ir/core.py", "Block.erase_arg"),
     ("xdsl/ir/core.py", "Block.insert_arg"), ("xdsl/ir/core.py", "Block.split_before"), ("xdsl/ir/core.py", "Operation.__init__"),
     ("xdsl/ir/core.py", "Operation.add_region"), ("xdsl/ir/core.py", "Operation.detach_region"),
     ("xdsl/ir/core.py", "Operation.drop_all_references"), ("xdsl/ir/core.py", "Operation.operands"), ("xdsl/ir/core.py", "Operation.successors"),
-    ("xdsl/ir/core.py", "Region.add_block"), ("xdsl/ir/core.py", "Region.detach_block"), ("xdsl/ir/core.py", "Region.insert_block_before"),
     ("xdsl/ir/core.py", "Region.move_blocks"), ("xdsl/ir/core.py", "Region.move_blocks_before"),
     ("xdsl/rewriter.py", "Rewriter.replace_value_with_new_type"),
 }
@@ -548,7 +714,7 @@ def _search(self, inst, seed):
 
 
 Spec.native_search_c01 = _search
-for _cls in ("OpListSpec", "UseListSpec", "SetItemSpec"):
+for _cls in ("OpListSpec", "UseListSpec", "SetItemSpec", "BlockListSpec"):
     globals()[_cls].native_search = _search
 
 ASSUMPTIONS = [
